@@ -140,7 +140,9 @@ fn known_class(opts: &Opts, runs: &[Vec<LeafKey>], src: &str) -> Option<&'static
             for (i, a) in run.iter().enumerate() {
                 for (j, b) in run.iter().enumerate() {
                     let single = !a.2.trim_start_matches("::").contains("::");
-                    if i != j && a.3.is_some() && (gran == "One" || single) && ((b.2 == a.2 && a.3 != b.3) || b.2.starts_with(&format!("{}::", a.2))) {
+                    // (a second leaf with the same path counts whatever its alias: `use crate::{self as _};`
+                    // next to `use crate as _;` comes out as `crate as _::{self as _, self as _}`)
+                    if i != j && a.3.is_some() && (gran == "One" || single) && (b.2 == a.2 || b.2.starts_with(&format!("{}::", a.2))) {
                         return Some("one-merge-loses-alias");
                     }
                 }
@@ -265,7 +267,7 @@ impl Property for C10 {
             }
         }
         let Some(out_runs) = use_runs(&r.text, ed2015) else {
-            return Outcome::fail("output-imports-not-understood", format!("{src}\n--->\n{}", r.text)).nontrivial(true);
+            return Outcome::fail(class.unwrap_or("output-imports-not-understood"), format!("the imports of the output cannot be read\n{src}\n--->\n{}", r.text)).nontrivial(true);
         };
         let fail = |kind: &str, msg: String| -> Outcome {
             let sig = match class {
